@@ -44,6 +44,8 @@ package conditions
 //@   ensures untouched-when-false-and-absent: idx < 0 && !(conditionStatus == "True" || writeFalseIfNotExist) ==> status.Conditions == old(status.Conditions)
 //@   ensures backing: root(status.Conditions) == old(root(status.Conditions)) || freshroot(status.Conditions)
 //@   ensures [C06,C14] reflects-status: IsConditionTrue(status, t) <==> conditionStatus == "True"
+//@   ensures [C09] stamps-last-update: supportLastUpdate && (idx >= 0 || conditionStatus == "True" || writeFalseIfNotExist) ==>
+//@             GetIndexForConditionType(status, t) >= 0 && status.Conditions[GetIndexForConditionType(status, t)].LastUpdateTime.Time == now.Time
 //@   ensures other-types-kept: forall u v1.ExtendedDaemonSetReplicaSetConditionType :: u != t ==>
 //@             (GetIndexForConditionType(status, u) >= 0 <==> old(GetIndexForConditionType(status, u)) >= 0)
 //@             && (GetIndexForConditionType(status, u) >= 0 ==> status.Conditions[GetIndexForConditionType(status, u)].Status
@@ -56,3 +58,14 @@ package conditions
 //@             status.Conditions[i].Type == old(status.Conditions[i].Type) && status.Conditions[i].Status == old(status.Conditions[i].Status)
 //@             && status.Conditions[i].LastTransitionTime.Time == old(status.Conditions[i].LastTransitionTime.Time)
 //@             && status.Conditions[i].LastUpdateTime.Time == old(status.Conditions[i].LastUpdateTime.Time)
+//@
+//@ func UpdateErrorCondition
+//@   requires status != nil
+//@   modifies status.Conditions, elems(status.Conditions)
+//@   ensures backing: root(status.Conditions) == old(root(status.Conditions)) || freshroot(status.Conditions)
+//@   ensures other-types-kept: forall u v1.ExtendedDaemonSetReplicaSetConditionType :: u != "ReconcileError" ==>
+//@             (GetIndexForConditionType(status, u) >= 0 <==> old(GetIndexForConditionType(status, u)) >= 0)
+//@             && (GetIndexForConditionType(status, u) >= 0 ==> status.Conditions[GetIndexForConditionType(status, u)].Status
+//@                   == old(status.Conditions[GetIndexForConditionType(status, u)].Status)
+//@                 && status.Conditions[GetIndexForConditionType(status, u)].LastUpdateTime.Time
+//@                   == old(status.Conditions[GetIndexForConditionType(status, u)].LastUpdateTime.Time))
